@@ -1,5 +1,6 @@
 \* the child loop of baseStage.execute keeps the result of the LAST child ("last error wins"): must violate
 CONSTANTS
+  MCPlansFan <- MCPlansFanQuick
   KeepFirstError = TRUE
   RecoverPerStage = TRUE
   FirstErrorWins = FALSE
